@@ -13,6 +13,7 @@ executions by the monitor of `nodediff`/`clustersim` (evidence: monitor_checks),
 -/
 import RaftVerif.Lemmas.Majority
 import RaftVerif.Lemmas.StepInv
+import RaftVerif.Lemmas.ReplSteps
 
 namespace Raft
 namespace C06
@@ -118,3 +119,5 @@ end Raft
 #print axioms Raft.C06.leader_flushes_before_commit
 #print axioms Raft.C06.follower_flush_before_ack
 #print axioms Raft.majority_selected
+#print axioms Raft.Repl.match_index_sound
+#print axioms Raft.Repl.install_match_index
